@@ -81,6 +81,11 @@ class Check:
         self.discharged += instances - violations
 
     def add(self, finding):
+        for f in self.findings:
+            if f.sig == finding.sig:
+                f.count = getattr(f, 'count', 1) + 1
+                return
+        finding.count = 1
         self.findings.append(finding)
 
     def sample(self, s):
@@ -140,7 +145,8 @@ class Check:
                 json.dump({'property': self.pid, 'repo': self.repo, 'violations': [f.as_dict() for f in new]}, fh,
                           indent=1, default=repr)
             for f in new[:40]:
-                print('  VIOLATED %s at %s:%s in %s: %s' % (f.rule, f.file, f.line, f.func, f.detail))
+                print('  VIOLATED %s at %s:%s in %s [%s] (x%d): %s' % (f.rule, f.file, f.line, f.func, f.construct,
+                                                                       getattr(f, 'count', 1), f.detail))
             if len(new) > 40:
                 print('  ... %d more in %s' % (len(new) - 40, rp))
             print('VIOLATION property=%s replay=%s' % (self.pid, rp))
